@@ -430,6 +430,11 @@ def run_shard(desc, ctx):
                         g = {"page_by": [], "subline_by": [ren(colsv[0], "SB", 0)]}
                     elif mode == "subline_page_by":
                         g = {"page_by": [ren(colsv[1], "G", 0)], "subline_by": [ren(colsv[0], "SB", 0)]}
+                        if rng.random() < 0.4:
+                            # the page_by value does not change where the subline_by value does (one value for the
+                            # whole table, or runs of its own)
+                            runs2 = G.split_runs(rng, n, rng.choice([1, 1, 2, 3]))
+                            g["page_by"] = [[f"G0v{k}" for k, ln in enumerate(runs2) for _ in range(ln)]]
                     else:
                         g = {"page_by": [ren(c, "G", l) for l, c in enumerate(colsv)]}
                         if mode != "page_by":
